@@ -1175,7 +1175,9 @@ def run_e2e(ctx, ch: Channel):
         for res, iso, label in live_clock_resources(ctx, app, client, clk, ch, lrng):
             pairs += 1
             if ctx.thorough:
-                hs = e2e_headers(ctx, res, lrng) if lrng.random() < .15 else compact_headers(ctx, res, lrng)
+                x = lrng.random()
+                hs = (e2e_headers(ctx, res, lrng) if x < .06 else compact_headers(ctx, res, lrng) if x < .5
+                      else SMALL_HEADERS + header_region_headers(lrng, res.length, extra=6))
             elif lrng.random() < .06:
                 hs = compact_headers(ctx, res, lrng)
             else:
@@ -1230,6 +1232,11 @@ def channels(ctx):
         "requested in rotation, every ranged request directly after a ranged or un-ranged request for a sibling, "
         "with header-region ranges (0-99, 20-79, ...); each answer is judged against the full representation of ITS "
         "OWN url fetched before and after the sequence; a failure's replay carries the request sequence. "
+        "Live clock x start-kind dimension: one live segment URL for every pair of 10 clocks at calendar boundaries "
+        "(Jan 1 00:00:00 / first minute / daytime, Dec 31 23:59:59, Feb 29, Mar 1 leap and non-leap, first of a "
+        "month, first minute of a day, ordinary) + seeded clocks x start kinds (epoch, year, month, today, now, "
+        "explicit Z, explicit +05:30, stream started 23 s ago); a 5xx met while looking for the available segment "
+        "is a failure; small header set on every pair, compact/full set on a seeded sample. "
         "non-trivial = 206 or 416; distinct by (url, header[, preceding url])"))
     try:
         run_e2e(ctx, ch2)
